@@ -142,6 +142,7 @@ type runner struct {
 	lastNano           int64
 	trace              []string    // what happened, for the failure message
 	fault              *faultState // error-return fault of this run (fault_test.go); nil: none
+	siblings           []*runner   // the other targets that live in the same base directory (siblings_test.go)
 }
 
 type result struct {
@@ -154,9 +155,27 @@ type result struct {
 	staleNewLink bool // <target>.new existed right after the crash
 }
 
-// observe resolves the target like a concurrent reader and compares it with the
-// one file set allowed at this point.
+// observe resolves the target - and every sibling target in the same base
+// directory - like a concurrent reader and compares each with the one file set
+// allowed for it at this point.
 func (r *runner) observe(where string) error {
+	if e := r.observeOwn(where); e != nil {
+		return e
+	}
+	for _, s := range r.siblings {
+		// a sibling is not being written now: it must show what its own last committed Write left
+		if e := s.observeOwn(where + ": SIBLING target " + filepath.Base(s.target) + " in the same base directory (nobody is writing it)"); e != nil {
+			var v *violation
+			if errors.As(e, &v) {
+				return &violation{kind: "sibling-" + v.kind, detail: v.detail}
+			}
+			return e
+		}
+	}
+	return nil
+}
+
+func (r *runner) observeOwn(where string) error {
 	want := r.committed
 	if r.renamed {
 		want = r.inflight
